@@ -3,8 +3,8 @@
 Writes mutants/<name>.diff (git-apply format) and mutants/INDEX.json (compiles? passes the 95 tests?)."""
 import sys,subprocess,shutil,os,json,tempfile
 M=[
-("C04_guard_only_start","parser.go","\t\tif size == 0 || char == utf8.RuneError {\n\t\t\treturn nil, 0, fmt.Errorf(\"not an UTF-8 encoding\")\n\t\t}\n\n\t\tif char == '\\n' {\n\t\t\t*line++\n\t\t}\n\n\t\tswitch state {\n\n\t\t// List creation",
-   "\t\tif state == stateStart && (size == 0 || char == utf8.RuneError) {\n\t\t\treturn nil, 0, fmt.Errorf(\"not an UTF-8 encoding\")\n\t\t}\n\n\t\tif char == '\\n' {\n\t\t\t*line++\n\t\t}\n\n\t\tswitch state {\n\n\t\t// List creation"),
+("C04_guard_only_start","parser.go","\t\tif size == 0 || (char == utf8.RuneError && size == 1) {\n\t\t\treturn nil, 0, fmt.Errorf(\"not an UTF-8 encoding\")\n\t\t}\n\n\t\tif char == '\\n' {\n\t\t\t*line++\n\t\t}\n\n\t\tswitch state {\n\n\t\t// List creation",
+   "\t\tif state == stateStart && (size == 0 || (char == utf8.RuneError && size == 1)) {\n\t\t\treturn nil, 0, fmt.Errorf(\"not an UTF-8 encoding\")\n\t\t}\n\n\t\tif char == '\\n' {\n\t\t\t*line++\n\t\t}\n\n\t\tswitch state {\n\n\t\t// List creation"),
 ("C03_afterval_space_only","parser.go","\t\tcase stateAfterVal:\n\n\t\t\t// Whitespace (skipping)\n\t\t\tif unicode.IsSpace(char) {","\t\tcase stateAfterVal:\n\n\t\t\t// Whitespace (skipping)\n\t\t\tif char == ' ' {"),
 ("C05_insert_cap","list_impl.go","if index < 0 || index > ego.Ego().Count() {\n\t\tpanic(fmt.Sprintf(\"index %d out of range with count %d\", index, ego.Ego().Count()))\n\t}\n\tif index == ego","if index < 0 || index > cap(ego.val) {\n\t\tpanic(fmt.Sprintf(\"index %d out of range with count %d\", index, ego.Ego().Count()))\n\t}\n\tif index == ego"),
 ("C05_delete_offbyone","list_impl.go","\t\tindex := indexes[i]\n\t\tif index < 0 || index >= ego.Ego().Count() {","\t\tindex := indexes[i]\n\t\tif index < 0 || index > ego.Ego().Count() {"),
@@ -36,7 +36,8 @@ M=[
 ("C20_seed_no_count","parser.go","\tstartLine := strings.Count(json[:start], \"\\n\") + 1\n\troot, _, err := parseObject","\tstartLine := 1\n\troot, _, err := parseObject"),
 ("C20_line_copy","parser.go","\t\t\t\tl, pos, err := parseList(json[i:], line)\n\t\t\t\tif err != nil {\n\t\t\t\t\treturn nil, 0, err\n\t\t\t\t}\n\t\t\t\ti += pos\n\t\t\t\tlist.Add(l)","\t\t\t\tcp := *line\n\t\t\t\tl, pos, err := parseList(json[i:], &cp)\n\t\t\t\tif err != nil {\n\t\t\t\t\treturn nil, 0, err\n\t\t\t\t}\n\t\t\t\ti += pos\n\t\t\t\tlist.Add(l)"),
 ("C02_list_trailing_comma","list_impl.go","\t\tif i+1 < len(ego.val) {\n\t\t\tresult.WriteRune(',')","\t\tif i < len(ego.val) {\n\t\t\tresult.WriteRune(',')"),
-("C01_cascade_float_first","parser.go","\tinteger, err := strconv.ParseInt(field, 0, bits.UintSize)\n\tif err == nil {\n\t\treturn int(integer), nil\n\t}\n\tfloat, err := strconv.ParseFloat(field, bits.UintSize)\n\tif err == nil {\n\t\treturn float, nil\n\t}","\tfloat, err := strconv.ParseFloat(field, bits.UintSize)\n\tif err == nil {\n\t\treturn float, nil\n\t}\n\tinteger, err := strconv.ParseInt(field, 0, bits.UintSize)\n\tif err == nil {\n\t\treturn int(integer), nil\n\t}"),
+("C02_strconv_quote_value","anytype.go","\treturn quote(val)\n","\treturn strconv.Quote(val)\n"),
+("C01_cascade_float_first","parser.go","\tinteger, err := strconv.ParseInt(field, 0, bits.UintSize)\n\tif err == nil {\n\t\treturn int(integer), nil\n\t}\n\tfloat, err := strconv.ParseFloat(field, 64)\n\tif err == nil {\n\t\treturn float, nil\n\t}","\tfloat, err := strconv.ParseFloat(field, 64)\n\tif err == nil {\n\t\treturn float, nil\n\t}\n\tinteger, err := strconv.ParseInt(field, 0, bits.UintSize)\n\tif err == nil {\n\t\treturn int(integer), nil\n\t}"),
 ]
 
 env=dict(os.environ, GOFLAGS="-mod=mod", GOPROXY="off", GOSUMDB="off", GOTOOLCHAIN="local", GOWORK="off")
